@@ -24,6 +24,21 @@ fn check_stream(e: &Enc, bytes: &[u8], cut: Option<usize>, stats: &mut Stats, vi
             None => decode_stream_single(e, BomMode::Off, sink, repl, bytes),
             Some(c) => decode_chunks_ample(e, BomMode::Off, sink, repl, &[&bytes[..c], &bytes[c..]], true),
         };
+        {
+            let mut f = Fnv::new().bytes(bytes).u(cut.map(|c| c as u64 + 1).unwrap_or(0)).b(repl as u8).b(sink.is_utf16() as u8);
+            if let Ok(r) = &run {
+                for t in &r.toks {
+                    f = match t {
+                        Tok::Char(c) => f.u(*c as u64),
+                        Tok::Err { start, end } => f.b(0xEE).u(*start as u64).u(*end as u64),
+                    };
+                }
+            } else {
+                f = f.s("panic");
+            }
+            describe(|| format!("{} {} repl {} stream {} cut {:?} -> {}", e.name, sink.name(), repl, hex(bytes), cut, run.as_ref().map(|r| toks_short(&r.toks)).unwrap_or_else(|e| e.clone())));
+            stats.dig(&format!("dec/{}", e.name), f);
+        }
         let want = if repl { fold_repl(&reft) } else { reft.clone() };
         let (got, problems) = match &run {
             Ok(r) => (Some(r.toks.clone()), r.problems.clone()),
